@@ -78,7 +78,7 @@ def _tol(case):
     th = case["cfg"]["theory"]
     if th["t"] == "Multisphere":
         # iterative, tolerance-controlled solver: a 1-ulp change of the inputs may change iteration counts / truncation
-        return 1e-6 if th.get("kw", {}).get("qeps1", 1) <= 1e-8 else 5e-3
+        return 3 * math.sqrt(th.get("kw", {}).get("qeps1", 1e-5))   # truncation tolerance acts on efficiencies (quadratic in amplitude)
     return TOLS[th["t"]]
 
 
